@@ -1,1 +1,78 @@
-import RosedVerif.Heap.Model
+/-
+C20 — Concurrent use of Editors is race-free and equals sequential use.   (PARTIAL, see below)
+
+What is proved: (i) on layer H, in every call — Reverse/IndexFunc/LastIndexFunc included — every
+write goes to a cell allocated by the same call, or is the first fill of the receiver's own cell; a
+filled cell is never written; (ii) the only package-level cache cell (gem.Zero's) starts filled
+(regenerated fact) and is therefore never written; (iii) structural facts regenerated from the
+typed source: the package-level variables are exactly gem.Zero and manip.spaceCollapser, no method
+of package rosed or gem has a pointer receiver, and the complete list of assignments that go through
+a pointer or into a caller-visible slice element is the one below (none in package rosed).
+What is NOT a Lean theorem: the step from (i)–(iii) to the Go memory model. The model cannot exhibit
+interleavings; the check therefore also runs the real code from 8 goroutines under the Go race
+detector and compares parallel with sequential results.
+-/
+import RosedVerif.Model.InstAFacts
+import RosedVerif.Gen.Facts
+namespace RosedVerif.Props
+open RosedVerif RosedVerif.H
+
+/-- (ii) regenerated from the source on every run: gem.Zero's cache cell is filled at start-up -/
+theorem C20_zero_prefilled : Gen.zeroCachePrefilled = true := rfl
+
+/-- (i) footprint of every gem.String operation -/
+theorem C20_footprint (k : Call) (h : Heap) : ∀ w ∈ (k.run h).2, Footprint h k.recv w := footprint k h
+
+/-- the write events are complete: a cell no event mentions is untouched -/
+theorem C20_writes_complete (k : Call) (h : Heap) (c : Nat) (hm : ¬ Mentions (k.run h).2 c) :
+    (k.run h).1.cells[c]? = h.cells[c]? := writes_complete k h c hm
+
+/-- a filled cell is never written by any call -/
+theorem C20_filled_never_written (k : Call) (h : Heap) (c : Nat) (x : List Nat) (hx : h.get c = some x) :
+    (k.run h).1.get c = some x ∧ ¬ Mentions (k.run h).2 c :=
+  ⟨frame k h c x hx, filled_not_written k h c x hx⟩
+
+/-- hence the package-level cell is never written, in any reachable state, by any operation -/
+theorem C20_package_state_never_written (k : Call) {h : Heap} {pool : List GStr} (hi : Inv h pool) :
+    (k.run h).1.get 0 = some [] ∧ ¬ Mentions (k.run h).2 0 :=
+  zero_never_written_inv C20_zero_prefilled k hi
+
+/-- no operand is altered by any call: the old pool stays valid -/
+theorem C20_operands_unchanged (k : Call) {h : Heap} {pool : List GStr} (hi : Inv h pool)
+    (hr : ∀ s, k.recv = some s → s ∈ zero :: pool) : Inv (k.run h).1 pool := inv_call k hi hr
+
+/-! (iii) structural facts, regenerated from /repo with full type information -/
+
+theorem C20_package_vars : Gen.packageVars = ["gem.Zero", "manip.spaceCollapser"] := by decide
+
+theorem C20_pointer_receivers :
+    Gen.pointerReceiverMethods = [("tb", "Block.Append"), ("tb", "Block.AppendBlock"), ("tb", "Block.AppendEmpty"),
+      ("tb", "Block.Apply"), ("tb", "Block.Remove"), ("tb", "Block.Set")] := by decide
+
+/-- every assignment in the library that goes through a pointer or into an element of a parameter /
+receiver / package-level slice: only gem.String's own cache cells (`gc`) and tb.Block's own line list -/
+theorem C20_heap_writes : Gen.heapWrites = [
+    ("gem", "String.Add", "ptr", "*r2.gc"),
+    ("gem", "String.CharAt", "ptr", "*str.gc"),
+    ("gem", "String.GraphemeIndexes", "ptr", "*str.gc"),
+    ("gem", "String.Len", "ptr", "*str.gc"),
+    ("gem", "String.Reverse", "ptr", "(*reversed.gc)[revIdx]"),
+    ("gem", "String.Reverse", "ptr", "*str.gc"),
+    ("gem", "String.SetCharAt", "ptr", "*clone.gc"),
+    ("gem", "String.SetCharAt", "ptr", "*clone.gc"),
+    ("gem", "String.Sub", "ptr", "(*clone.gc)[i]"),
+    ("gem", "String.Sub", "ptr", "*clone.gc"),
+    ("gem", "String.Sub", "ptr", "*str.gc"),
+    ("tb", "Block.Append", "ptr", "tb.Lines"),
+    ("tb", "Block.Append", "ptr", "tb.Lines"),
+    ("tb", "Block.Apply", "ptr", "tb.Lines"),
+    ("tb", "Block.Remove", "ptr", "tb.Lines"),
+    ("tb", "Block.Set", "ptr", "tb.Lines[linePos]"),
+    ("tb", "Block.Swap", "elem-param", "tb.Lines[i]"),
+    ("tb", "Block.Swap", "elem-param", "tb.Lines[j]")] := by decide
+
+/-- in particular no function of package rosed (Editor, Options, sub-editors) writes through a pointer -/
+theorem C20_rosed_writes_nothing :
+    (Gen.heapWrites.filter fun w => w.1 == "rosed") = [] := by decide
+
+end RosedVerif.Props
